@@ -7,6 +7,7 @@ import SalsaVerif.Drive.SyncDG
 import SalsaVerif.Drive.Core
 import SalsaVerif.Drive.Core3
 import SalsaVerif.Drive.CoreAcc
+import SalsaVerif.Drive.CoreSpec
 import SalsaVerif.Drive.Cancel
 import SalsaVerif.Drive.Alloc
 
@@ -22,6 +23,7 @@ def main (args : List String) : IO UInt32 := do
   | ["core"] => SalsaVerif.Drive.Core.main; return 0
   | ["core3"] => SalsaVerif.Drive.Core3.main; return 0
   | ["coreacc"] => SalsaVerif.Drive.CoreAcc.main; return 0
+  | ["corespec"] => SalsaVerif.Drive.CoreSpec.main; return 0
   | ["cancel"] => SalsaVerif.Drive.Cancel.main; return 0
   | ["alloc"] => SalsaVerif.Drive.Alloc.main; return 0
   | _ =>
